@@ -459,7 +459,9 @@ func corrC09(r *Run) {
 		}
 	}
 	// ---- long texts: the detectors must look at the WHOLE text (a rune the coding cannot carry may come after any
-	// number of runes / octets), and the pipeline BestCoding -> ComposeMultipartShortMessage -> decode every part -> join
+	// number of runes / octets), and the pipeline BestCoding -> ComposeMultipartShortMessage -> decode every part -> join.
+	// A long text is a random block of 9..40 runes repeated, with one rune of another repertoire at the very end or
+	// between two repetitions behind the first 256 runes / 1024 octets (the block structure keeps the Gallina term small).
 	{
 		foreign := []rune{0x1F600, 0x0416, 0x05D0, 0x65E5, 0xAC00, 0x00E9, 0x20AC, 0x0E01, 0x10000, 0x0100}
 		lens := [][2]int{{257, 140}, {1025, 200}}
@@ -475,30 +477,30 @@ func corrC09(r *Run) {
 			}
 			for li, lh := range ls {
 				ln := lh[0] + r.Rng.Intn(lh[1])
-				rs := make([]rune, 0, ln+1)
-				for k := 0; k < ln; k++ {
+				bl := 9 + r.Rng.Intn(32)
+				block := make([]rune, bl)
+				for k := range block {
 					x := p.good[r.Rng.Intn(len(p.good))]
 					if p.dc == coding.GSM7BitCoding && x == '\r' {
 						x = 'a'
 					}
-					rs = append(rs, x)
+					block[k] = x
 				}
-				model := small || ln <= 600
-				emitLong(cx, string(rs), name+" long text", model, uint16(r.Rng.Intn(65536)))
+				reps := (ln + bl - 1) / bl
+				model := small || reps*bl <= 600
+				emitLong(cx, longText{block: block, k1: reps}, name+" long text", model, uint16(r.Rng.Intn(65536)))
 				// one rune of another repertoire at the very end / somewhere behind the first 256 runes (1024 octets)
 				for v := 0; v < 2; v++ {
 					f := foreign[(pi+li+v*3+r.Rng.Intn(2))%len(foreign)]
-					var t []rune
-					if v == 0 {
-						t = append(append([]rune{}, rs...), f)
-					} else {
-						at := 256 + r.Rng.Intn(ln-255)
-						if r.Rng.Intn(2) == 0 && ln > 1100 {
-							at = 1024 + r.Rng.Intn(ln-1023)
+					lt := longText{block: block, k1: reps, mid: []rune{f}}
+					if v == 1 {
+						first := 256/bl + 1 + r.Rng.Intn(reps-256/bl)
+						if r.Rng.Intn(2) == 0 && reps*bl > 1100 {
+							first = 1024/bl + 1 + r.Rng.Intn(reps-1024/bl)
 						}
-						t = append(append(append([]rune{}, rs[:at]...), f), rs[at:]...)
+						lt = longText{block: block, k1: first, mid: []rune{f}, k2: reps - first}
 					}
-					emitLong(cx, string(t), name+" long text with one rune of another repertoire behind the first 256", model && v == 0, uint16(255+r.Rng.Intn(2)))
+					emitLong(cx, lt, name+" long text with one rune of another repertoire behind the first 256", model && v == 0, uint16(255+r.Rng.Intn(2)))
 				}
 			}
 		}
@@ -551,40 +553,72 @@ func corrC09(r *Run) {
 			}
 			emit(string(rs), bucket)
 			if i%11 == 10 || i%13 == 5 {
-				cx.checkPipeline("best", coding.BestCoding, string(rs), uint16(r.Rng.Intn(65536)), true)
+				cx.checkPipeline("best", coding.BestCoding, string(rs), "", uint16(r.Rng.Intn(65536)), true)
 			}
 		}
 	}
 }
 
+// longText: block^k1 ++ mid ++ block^k2
+type longText struct {
+	block  []rune
+	k1, k2 int
+	mid    []rune
+}
+
+func (t longText) runes() []rune {
+	var out []rune
+	for i := 0; i < t.k1; i++ {
+		out = append(out, t.block...)
+	}
+	out = append(out, t.mid...)
+	for i := 0; i < t.k2; i++ {
+		out = append(out, t.block...)
+	}
+	return out
+}
+
+func (t longText) coq() string {
+	return fmt.Sprintf("(rept %d %s ++ %s ++ rept %d %s)", t.k1, coqRunes(t.block), coqRunes(t.mid), t.k2, coqRunes(t.block))
+}
+
 // emitLong: one long text through both detectors (direct: the returned coding must encode the whole text and decode
 // back), the model's labels, and the pipeline detector -> ComposeMultipartShortMessage for both detectors.
-func emitLong(cx *c09ctx, s, bucket string, model bool, ref uint16) {
+func emitLong(cx *c09ctx, lt longText, bucket string, model bool, ref uint16) {
 	r := cx.r
-	runes := []rune(s)
+	runes := lt.runes()
+	s := string(runes)
 	key := fmt.Sprintf("text %s", hex.EncodeToString([]byte(s)))
 	r.Count(key, true, bucket)
 	c, out, ok := cx.checkText("best", coding.BestCoding, s)
 	cs, _, _ := cx.checkText("bestsafe", coding.BestSafeCoding, s)
-	txt := coqText(runes)
-	r.Case("best "+clip(key, 60), fmt.Sprintf("(dc_of_label (best %s) =? %d) && (dc_of_label (best_safe %s) =? %d)", txt, byte(c), txt, byte(cs)))
+	txt := lt.coq()
+	r.Case("best "+clip(key, 60), fmt.Sprintf("(let t := %s in (dc_of_label (best t) =? %d) && (dc_of_label (best_safe t) =? %d))", txt, byte(c), byte(cs)))
 	if model {
 		r.Case("encode_l best "+clip(key, 60), fmt.Sprintf("same_out (encode_l %s %s) %s", coqLabel(c), txt, coqOutBytes(out, ok, false)))
 		if ok {
 			d, dok, dpan := implDecode(c, out)
-			r.Case("decode_l best "+clip(key, 60), fmt.Sprintf("same_out (decode_l %s %s) %s", coqLabel(c), coqHex(out), coqOutRunes(d, dok, dpan)))
+			want := "(Err EDecode)"
+			if dpan {
+				want = "Panic"
+			} else if dok && d == s {
+				want = "(Ok " + txt + ")"
+			} else if dok {
+				want = coqOutRunes(d, dok, dpan)
+			}
+			r.Case("decode_l best "+clip(key, 60), fmt.Sprintf("same_out (decode_l %s %s) %s", coqLabel(c), coqHex(out), want))
 		}
 	}
-	cx.checkPipeline("best", coding.BestCoding, s, ref, model)
+	cx.checkPipeline("best", coding.BestCoding, s, txt, ref, model)
 	if cs != c {
-		cx.checkPipeline("bestsafe", coding.BestSafeCoding, s, ref, model && len(runes) <= 1500)
+		cx.checkPipeline("bestsafe", coding.BestSafeCoding, s, txt, ref, model && len(runes) <= 1500)
 	}
 }
 
 // checkPipeline: text -> detector -> ComposeMultipartShortMessage with the detected coding -> every part decoded with the
 // coding it carries -> joined.  C09: never fails for lack of an encoding (an error is acceptable only as "too large" /
 // "too many parts"), never stores octets that read back as another text.
-func (cx *c09ctx) checkPipeline(op string, detect func(string) coding.DataCoding, s string, ref uint16, model bool) {
+func (cx *c09ctx) checkPipeline(op string, detect func(string) coding.DataCoding, s, txt string, ref uint16, model bool) {
 	r := cx.r
 	runes := []rune(s)
 	c := detect(s)
@@ -658,7 +692,10 @@ func (cx *c09ctx) checkPipeline(op string, detect func(string) coding.DataCoding
 		if op == "bestsafe" {
 			fn = "best_safe"
 		}
-		r.Case(clip(in, 80), fmt.Sprintf("pipeline_case %s %d %s %d %d %s", fn, ref, coqText(runes), byte(c), cls, coqList(obs)))
+		if txt == "" {
+			txt = coqText(runes)
+		}
+		r.Case(clip(in, 80), fmt.Sprintf("pipeline_case %s %d %s %d %d %s", fn, ref, txt, byte(c), cls, coqList(obs)))
 	}
 }
 
